@@ -401,4 +401,6 @@ var scramRestartSeqs = [][]string{
 	{"empty", "first", "empty", "first-iter2", "final-stale", "235"}, {"empty", "first-iter2", "final", "235"},
 	{"empty", "first", "first-iter2", "final", "235"}, {"empty", "first", "empty", "junk"}, {"empty", "first", "empty", "first", "final-stale"},
 	{"empty", "first", "empty", "first-iter2", "empty", "first", "final", "235"},
+	{"empty", "first-trunc", "final-bad", "235"}, {"empty", "first-foreign", "final-bad", "235"},
+	{"empty", "first", "empty", "first-trunc", "final-bad", "235"},
 }
